@@ -5,6 +5,8 @@ namespace CC
 
 structure TreeSet where
   t : TreeTable := {}
+  /-- the set's own copy of `mem_alloc/mem_calloc/mem_free` (the same conf is handed to the table) -/
+  triple : Triple := .conf
   deriving DecidableEq, Repr, Inhabited
 
 namespace TreeSet
@@ -13,29 +15,32 @@ open Spec.OrdMap (Out)
 variable (cmp : Nat → Nat → Int)
 
 /-- `cc_treeset_new_conf`: header, then the table (header + sentinel) -/
-def new (m : Mem) : Stat × Option TreeSet × Mem :=
-  let a := m.alloc
+def newT (tr : Triple) (m : Mem) : Stat × Option TreeSet × Mem :=
+  let a := m.allocT tr
   if !a.1 then (.errAlloc, none, a.2) else
-  match TreeTable.new a.2 with
-  | (.ok, some t, m') => (.ok, some { t := t }, m')
-  | (st, _, m') => (st, none, m'.free)
+  match TreeTable.newT tr a.2 with
+  | (.ok, some t, m') => (.ok, some { t := t, triple := tr }, m')
+  | (st, _, m') => (st, none, m'.freeT tr)
+
+/-- `cc_treeset_new_conf` with the caller's allocator triple -/
+def new (m : Mem) : Stat × Option TreeSet × Mem := newT .conf m
 
 /-- `cc_treeset_destroy` -/
-def destroy (s : TreeSet) (m : Mem) : Mem := (s.t.destroy m).free
+def destroy (s : TreeSet) (m : Mem) : Mem := (s.t.destroy m).freeT s.triple
 
 /-- `cc_treeset_add` -/
 def add (s : TreeSet) (e : Nat) (m : Mem) : Stat × TreeSet × Mem × Nat :=
   let r := s.t.add cmp e dummy m
-  (r.1, { t := r.2.1 }, r.2.2.1, r.2.2.2)
+  (r.1, { s with t := r.2.1 }, r.2.2.1, r.2.2.2)
 
 /-- `cc_treeset_remove`: the out-parameter receives what the table stored as the value, i.e. the
 dummy pointer, not the element -/
 def remove (s : TreeSet) (e : Nat) (m : Mem) : Stat × Option Nat × TreeSet × Mem × Nat :=
   let r := s.t.remove cmp e m
-  (mapStat r.1, r.2.1, { t := r.2.2.1 }, r.2.2.2.1, r.2.2.2.2)
+  (mapStat r.1, r.2.1, { s with t := r.2.2.1 }, r.2.2.2.1, r.2.2.2.2)
 
 def removeAll (s : TreeSet) (m : Mem) : TreeSet × Mem :=
-  let r := s.t.removeAll m; ({ t := r.1 }, r.2)
+  let r := s.t.removeAll m; ({ s with t := r.1 }, r.2)
 
 def first (s : TreeSet) : Stat × Option Nat := let r := s.t.firstKey; (mapStat r.1, r.2)
 def last (s : TreeSet) : Stat × Option Nat := let r := s.t.lastKey; (mapStat r.1, r.2)
@@ -55,13 +60,14 @@ def iterNext (s : TreeSet) (it : TreeIter) : Stat × Option Nat × TreeIter :=
 /-- `cc_treeset_iter_remove` (status of the table function, out = dummy) -/
 def iterRemove (s : TreeSet) (it : TreeIter) (m : Mem) : Stat × Option Nat × TreeSet × TreeIter × Mem :=
   let r := s.t.iterRemove cmp it m
-  (r.1, r.2.1, { t := r.2.2.1 }, r.2.2.2.1, r.2.2.2.2)
+  (r.1, r.2.1, { s with t := r.2.2.1 }, r.2.2.2.1, r.2.2.2.2)
 
 /-- abstraction: the elements in ascending order -/
 def abs (s : TreeSet) : List Nat := s.t.root.toList.map (·.1)
 
-/-- invariant: the table's invariant, and every stored value is the dummy -/
-def Inv (s : TreeSet) : Prop := s.t.Inv cmp ∧ ∀ e ∈ s.t.root.toList, e.2 = dummy
+/-- invariant: the table's invariant, every stored value is the dummy, and the wrapped table uses the
+set's allocator triple -/
+def Inv (s : TreeSet) : Prop := s.t.Inv cmp ∧ (∀ e ∈ s.t.root.toList, e.2 = dummy) ∧ s.t.triple = s.triple
 instance (s : TreeSet) : Decidable (s.Inv cmp) := by unfold Inv; infer_instance
 
 /-- one call of the set API -/
